@@ -258,7 +258,8 @@ class TGen:
                  ("cond", 1), ("setx", 1 if self.assignable and not self.in_comp else 0), ("F", 2), ("quote", 1),
                  ("fstr", 1), ("hyI", 1), ("del", 1), ("yield", 1), ("require", 1), ("unpack", 1),
                  ("return", 1), ("deco", 1), ("lit", 3 if "lits" in self.opts else 0),
-                 ("fstr2", 3 if "fstr" in self.opts else 0), ("attrkw", 3 if "kwattr" in self.opts else 0)]
+                 ("fstr2", 3 if "fstr" in self.opts else 0), ("attrkw", 3 if "kwattr" in self.opts else 0),
+                 ("annot", 4 if "annot" in self.opts else 0)]
         kind = rng.choices([f for f, _ in forms], [w for _, w in forms])[0]
         D = d + 1
         m = getattr(self, "e_" + kind)
@@ -735,6 +736,55 @@ class TGen:
         return (f"(do (defn {f} [#** {a}] (L {self.k()} (sorted (.items {a})))) ({f} :{b} {self.lit()} :{self.kw} 2) "
                 f"{self.lit()})")
 
+    def e_annot(self, D):
+        """annotated parameters of every kind on fn (lambda path and def path) and defn"""
+        rng = self.rng
+        f, a, b, c, va, kw = self.newhead(), self.new(), self.new(), self.new(), self.new(), self.new()
+
+        def ann():
+            r = rng.random()
+            if r < 0.4:
+                return f"#^ (L {self.k()} {rng.choice(['int', 'str', 'dict'])}) "
+            return "#^ " + rng.choice(["int", "str", '"note"', "(get [int] 0)"]) + " "
+        mode = rng.choice(["only-star", "only-kw", "only-star-kw", "mixed", "mixed", "plain-only", "ret-only"])
+        p_plain = mode in ("mixed", "plain-only")
+        p_star = mode in ("only-star", "only-star-kw") or (mode == "mixed" and rng.random() < 0.5)
+        p_kw = mode in ("only-kw", "only-star-kw") or (mode == "mixed" and rng.random() < 0.5)
+        ret = ann() if (mode == "ret-only" or (mode == "mixed" and rng.random() < 0.3)) else ""
+        ll, uses, call = [], [a], [self.lit()]
+        ll.append((ann() if p_plain and rng.random() < 0.7 else "") + a)
+        if rng.random() < 0.5:
+            ll.append((ann() if p_plain and rng.random() < 0.6 else "") + f"[{b} {self.lit()}]")
+            uses.append(b)
+        has_star = rng.random() < 0.7 or mode in ("only-star", "only-star-kw")
+        if has_star:
+            ll.append((ann() if p_star else "") + f"#* {va}")
+            uses.append(f"(len {va})")
+            call += [self.lit(), self.lit()][: rng.randint(0, 2)] if len(ll) == 2 else []
+        elif rng.random() < 0.5:
+            ll.append("*")
+            ll.append((ann() if p_plain and rng.random() < 0.6 else "") + f"[{c} {self.lit()}]")
+            uses.append(c)
+        has_kw = rng.random() < 0.6 or mode in ("only-kw", "only-star-kw")
+        if has_kw:
+            ll.append((ann() if p_kw else "") + f"#** {kw}")
+            uses.append(f"(len {kw})")
+            if rng.random() < 0.6:
+                call.append(f":{self.kw} {self.lit()}")
+        expr = "(+ " + " ".join(uses) + ")"
+        kind = rng.choice(["lambda", "lambda", "fn-def", "defn"])
+        self.feats.add("annot-" + mode)
+        self.feats.add("annot-" + kind)
+        lam = " ".join(ll)
+        if kind == "lambda":
+            d = f"(setv {f} (fn {ret}[{lam}] {expr}))"
+        elif kind == "fn-def":
+            d = f"(setv {f} (fn {ret}[{lam}] (setv {a} (+ {a} 0)) {expr}))"
+        else:
+            d = f"(defn {ret}{f} [{lam}] {expr})"
+        return (f"(do {d} (L {self.k()} (sorted (.keys (. {f} __annotations__)))) "
+                f"({f} {' '.join(call)}))")
+
     # -- statements
     def S(self, d):
         rng = self.rng
@@ -835,6 +885,67 @@ def shadow_program(rng, depth=None):
     c0 = next(consts)
     text = f"(let [{N} {c0}] {level(1, c0)})"
     return text, exp
+
+
+def rebind_program(rng):
+    """Closed-form program: ONE `let` binds the same name 2-4 times (directly or through an
+    unpacking target) with closures and reads in between; every binding is a distinct
+    variable, so a closure made between two bindings keeps seeing the earlier one.
+    Returns (template, number of placeholders, expected events)."""
+    ids = itertools.count(1)
+    N, M = ph(0), ph(1)
+    nph = [2]
+
+    def fresh():
+        nph[0] += 1
+        return ph(nph[0] - 1)
+    cells = {}                      # name -> current value
+    binds, after, exp = [], [], []
+    consts = itertools.count(10)
+    nreb = rng.randint(2, 4)
+    cells[N] = next(consts)
+    binds.append(f"{N} {cells[N]}")
+    if rng.random() < 0.4:
+        cells[M] = next(consts)
+        binds.append(f"{M} {cells[M]}")
+    for r in range(nreb):
+        # things created between two bindings of N
+        for _ in range(rng.randint(1, 2)):
+            kind = rng.choice(["closure", "closure", "read", "closure2"])
+            g, k = fresh(), next(ids)
+            if kind == "closure" or (kind == "closure2" and M not in cells):
+                binds.append(f"{g} (fn [] {N})")
+                after.append((k, f"(L {k} ({g}))", ["int", repr(cells[N])]))
+            elif kind == "closure2":
+                binds.append(f"{g} (fn [] [{N} {M}])")
+                after.append((k, f"(L {k} ({g}))", ["list", repr([cells[N], cells[M]])]))
+            else:
+                binds.append(f"{g} (L {k} {N})")
+                exp.append([k, ["int", repr(cells[N])]])
+        if r == nreb - 1:
+            break
+        how = rng.choice(["const", "inc", "unpack"]) if M in cells else rng.choice(["const", "inc"])
+        if how == "const":
+            v = next(consts)
+            binds.append(f"{N} {v}")
+            cells[N] = v
+        elif how == "inc":
+            binds.append(f"{N} (+ {N} 100)")
+            cells[N] = cells[N] + 100
+        else:
+            binds.append(f"[{M} {N}] [(* {N} 10) (* {M} 10)]")
+            cells[N], cells[M] = cells[M] * 10, cells[N] * 10
+    k = next(ids)
+    body = " ".join(t for _, t, _ in after) + f" (L {k} {N})"
+    exp += [[kk, tok] for kk, _, tok in after] + [[k, ["int", repr(cells[N])]]]
+    text = "(let [" + " ".join(binds) + f"] {body})"
+    w = rng.random()
+    if w < 0.4:
+        f = fresh()
+        text = f"(defn {f} [] {text})\n({f})"
+    elif w < 0.55:
+        text = f"((fn [] {text}))"
+    return text, nph[0], exp
 
 
 def digit_program(rng):
@@ -1070,6 +1181,11 @@ def set_sizes(tree):
                     best = max(best, len(st.targets[0].elts))
         elif isinstance(node, ast.MatchOr):
             best = max(best, 2)
+        elif isinstance(node, ast.Assign) and isinstance(node.targets[0], (ast.Tuple, ast.List)):
+            # local-macro transfer of a function-local `require`
+            el = node.targets[0].elts
+            if el and all(isinstance(e, ast.Name) and e.id.startswith("_hy_local_macro__") for e in el):
+                best = max(best, len(el))
     return best
 
 
